@@ -165,7 +165,7 @@ def exOps : List SpecOp :=
   where default : SysRecord := { record := { level := 1, message := [], target := [] }, env := exEnv }
 
 private theorem exWF (c : SpecBundle) (hc : c.b.cfg.cc = asciiClass) (hP : c.b.cfg.P = Profile.debug64)
-    (hB : c.b.cfg.B.mdcWhole = true) (happ : c.b.cfg.app = exCfg.app) (hasts : c.asts = exAsts)
+    (hB : c.b.cfg.B.mdcWhole = true) (hE : c.b.cfg.B.mdcEmptyOk = true) (happ : c.b.cfg.app = exCfg.app) (hasts : c.asts = exAsts)
     (hv : Valid c.b.cfg.routing) (hsub : ∀ a ∈ c.b.cfg.routing.appenders, a = exF ∨ a = exG)
     (hinj : PathsInj c) : BundleWF c where
   wf :=
@@ -174,6 +174,7 @@ private theorem exWF (c : SpecBundle) (hc : c.b.cfg.cc = asciiClass) (hP : c.b.c
       us := by rw [hP]; rfl
       dcp := by rw [hP]; rfl
       mdc := hB
+      mdcE := hE
       printed := by
         intro a ha _
         rw [happ, hasts]
@@ -185,7 +186,7 @@ private theorem exWF (c : SpecBundle) (hc : c.b.cfg.cc = asciiClass) (hP : c.b.c
   paths := hinj
 
 example : BundleWF exB0 :=
-  exWF exB0 rfl rfl rfl rfl rfl (by unfold Valid; decide)
+  exWF exB0 rfl rfl rfl rfl rfl rfl (by unfold Valid; decide)
     (by intro a ha; simpa [exB0, exCfg, exRouting] using ha)
     (by
       intro a ha a' ha' h
@@ -193,12 +194,12 @@ example : BundleWF exB0 :=
       rcases ha with rfl | rfl <;> rcases ha' with rfl | rfl <;> first | rfl | (exact absurd h (by decide)))
 
 example : BundleWF exB1 :=
-  exWF exB1 rfl rfl rfl rfl rfl (by unfold Valid; decide)
+  exWF exB1 rfl rfl rfl rfl rfl rfl (by unfold Valid; decide)
     (by intro a ha; right; simpa [exB1] using ha)
     (by intro a ha a' ha' _; simp only [exB1, List.mem_cons, List.not_mem_nil, or_false] at ha ha'; rw [ha, ha'])
 
 example : BundleWF exB2 :=
-  exWF exB2 rfl rfl rfl rfl rfl (by unfold Valid; decide)
+  exWF exB2 rfl rfl rfl rfl rfl rfl (by unfold Valid; decide)
     (by intro a ha; left; simpa [exB2] using ha)
     (by intro a ha a' ha' _; simp only [exB2, List.mem_cons, List.not_mem_nil, or_false] at ha ha'; rw [ha, ha'])
 
@@ -235,6 +236,7 @@ example : SysWF exCfgJ exAsts where
   us := rfl
   dcp := rfl
   mdc := rfl
+  mdcE := rfl
   printed := by
     intro a ha hk
     simp only [exCfgJ, exCfg, exRouting, List.mem_cons, List.not_mem_nil, or_false] at ha
